@@ -553,3 +553,5 @@ func (s *backendSuite) drain(id string, opts map[string]string) string {
 	}
 	return fmt.Sprintf("events %s %s closed=%d", id, list, cl)
 }
+
+func init() { register("backend", func(o map[string]string) suite { return newBackendSuite(o) }) }
